@@ -334,6 +334,23 @@ class Engine(ExprMixin, StmtMixin, CallMixin, BuiltinMixin, EngineBase):
             conj.extend(x == y for x, y in zip(now, then) if not x.eq(y))
         return [(p, VBool(z3.And(conj) if conj else z3.BoolVal(True)))]
 
+    def sp_unchanged_old(self, node, p):
+        """unchanged_old('Class.field', ...): every object allocated in the old state keeps the value of the field
+        (objects created since are unconstrained)."""
+        heap, epoch = p.old_heaps[-1]
+        old_alloc = self.alloc_arr(p, heap, epoch)
+        conj = []
+        for a in node.args:
+            c, f = a.value.rsplit(".", 1)
+            key, ty = self.heap_key(c, f)
+            now = self.heap_arrays(p, key, ty)
+            then = self.heap_arrays(p, key, ty, heap, epoch)
+            if all(x.eq(y) for x, y in zip(now, then)):
+                continue
+            r = z3.Const(fresh_name("uo"), Ref)
+            conj.append(z3.ForAll([r], z3.Implies(z3.Select(old_alloc, r), z3.And([z3.Select(x, r) == z3.Select(y, r) for x, y in zip(now, then)]))))
+        return [(p, VBool(z3.And(conj) if conj else z3.BoolVal(True)))]
+
     # ---------------------------------------------------------------- targets
     def add_target(self, t: Target):
         self.targets.append(t)
